@@ -23,6 +23,7 @@ import (
 	mavldb "github.com/33cn/chain33/system/store/mavl/db"
 	"github.com/33cn/chain33/types"
 	"verif/checks/c01/mvx"
+	"verif/vrt"
 	"verif/vx"
 )
 
@@ -519,9 +520,19 @@ func main() {
 		var c struct {
 			Harness string
 			Hist    []int
+			Choices []int
 		}
 		json.Unmarshal(raw, &c)
 		f := "unknown harness " + c.Harness
+		for _, q := range concScheds(r, true) {
+			if q.Name == c.Harness {
+				res := (*vrt.Result)(nil)
+				f, res = q.ReplaySched(c.Choices)
+				for _, l := range res.Trace {
+					fmt.Println("  ", l)
+				}
+			}
+		}
 		for _, h := range hs {
 			if h.name == c.Harness {
 				h.shards = false
@@ -548,6 +559,9 @@ func main() {
 			continue
 		}
 		h.seq(r).Explore()
+	}
+	if sh, _ := r.Shard(); sh == 0 && os.Getenv("C05_ONLY") == "" {
+		concurrentPart(r)
 	}
 	r.Finish()
 }
